@@ -2,7 +2,7 @@
    for every candidate stream and every verdict stream of the removing filters that follow LevelLimit in the chain. *)
 From Coq Require Import List Bool Arith ZArith.
 From HV Require Import Ord ListX Sprout SproutFacts Tree TreeLemmas TreeInv TreeRun.
-From HV Require Import DriverPrim SproutPrim GenEquivStops GenFilters GenEquivFilters.
+From HV Require Import DriverPrim SproutPrim GenEquivStops GenLevelLimit FilterDict GenEquivLevelLimit.
 From HV Require Import DriverPrim Driver DriverFacts GenDriver GenEquivDriver DriverCode.
 Import ListNotations.
 
